@@ -790,7 +790,12 @@ impl DtlsInner {
                         (msg, raw_msg)
                     };
 
-                    ctx.recv_message_seq += 1;
+                    // message_seq is 16 bits on the wire; a peer that walks through the whole
+                    // range must get an error, not an arithmetic-overflow panic.
+                    ctx.recv_message_seq = ctx
+                        .recv_message_seq
+                        .checked_add(1)
+                        .ok_or_else(|| anyhow::anyhow!("handshake message_seq exhausted"))?;
 
                     if processing_msg.msg_type != HandshakeType::Finished
                         && processing_msg.msg_type != HandshakeType::HelloRequest
